@@ -20,15 +20,27 @@ ASSUMPTIONS = {"C18": [
     "dial result: for them 'dial failed' is judged as closed + never used + nothing written after the failure",
     "malformed / bad-proof server messages exist for SCRAM only (PLAIN has no server message); a malformed handshake answer is a "
     "response body cut inside the error code",
+    "an ApiVersions response without an entry for SaslHandshake (key 17) means handshake version 0 (raw authentication bytes) to the "
+    "client, never 'no authentication'; the fake broker serves SaslHandshake / SaslAuthenticate whatever it advertised",
+    "an injected 'error' answers the step with the code of the tuple (handshake: 33, 34, -1; authenticate round: 58, 34, -1) and closes "
+    "the connection, for right and wrong credentials alike; after a v0 handshake no frame carries a code (one representative, 58)",
 ]}
 
 INVS = ["C18_NothingBeforeAuth", "C18_FailureClosesAndFails", "C18_SuccessIffRightCreds", "C18_RawVsFramed"]
 # defect class -> the invariant that must reject it on the model (vacuity guards)
 GUARDS = [("useBeforeAuth", "C18_NothingBeforeAuth"), ("skipAuthV0", "C18_SuccessIffRightCreds"),
           ("ignoreAuthErr", "C18_FailureClosesAndFails"), ("noClose", "C18_FailureClosesAndFails"),
-          ("sendAfterFail", "C18_FailureClosesAndFails"), ("framedV0", "C18_RawVsFramed")]
+          ("sendAfterFail", "C18_FailureClosesAndFails"), ("framedV0", "C18_RawVsFramed"),
+          # "authenticate only if the ApiVersions response lists SaslHandshake"
+          ("skipAuthAbsent", "C18_SuccessIffRightCreds"), ("skipAuthAbsent", "C18_NothingBeforeAuth"),
+          # "error code > 0" instead of "error code # 0": UNKNOWN_SERVER_ERROR (-1) passes for success
+          ("negCodeOK", "C18_FailureClosesAndFails"), ("negCodeOK", "C18_NothingBeforeAuth")]
 
 MECHS = ["PLAIN", "SCRAM-SHA-256", "SCRAM-SHA-512"]
+HSADVS = ["absent", "v0", "v0v1", "v1"]      # ApiVersions entry of SaslHandshake: none, 0..0, 0..1, 1..1
+AUTHADVS = ["absent", "v0", "v0v1"]          # ApiVersions entry of SaslAuthenticate: none, 0..0, 0..1
+HS_CODES = [33, 34, -1]                      # codes of a rejected handshake (-1: UNKNOWN_SERVER_ERROR, the only negative code)
+AUTH_CODES = [58, 34, -1]                    # codes of a failed authenticate round
 CREDS = ["right", "wrongPassword", "unknownUser"]
 ENTRIES = ["dial", "leader", "transport"]
 CHUNK = 25000      # journal lines per TLC run
@@ -38,14 +50,22 @@ def rounds(mech):
     return 1 if mech == "PLAIN" else 2
 
 
-def faults(mech):
-    """(kind, step) pairs that are meaningful for the mechanism: the same set as FaultOK in Sasl.tla."""
-    out = [("none", 0), ("unsupported", 0)]
-    for k in ("error", "close"):
-        out += [(k, s) for s in range(0, rounds(mech) + 1)]
-    out.append(("malformed", 0))
+def advmax(hsadv):
+    """handshake version a correct client negotiates (AdvMax in Sasl.tla): an absent entry means version 0."""
+    return 0 if hsadv in ("absent", "v0") else 1
+
+
+def faults(mech, hsadv):
+    """(kind, step, code) triples that are meaningful for the mechanism and the advertisement: the same set as
+    FaultOK and CodeOK in Sasl.tla."""
+    out = [("none", 0, 0), ("unsupported", 0, 0)]
+    out += [("error", 0, c) for c in HS_CODES]
+    for s in range(1, rounds(mech) + 1):
+        out += [("error", s, c) for c in (AUTH_CODES if advmax(hsadv) == 1 else AUTH_CODES[:1])]
+    out += [("close", s, 0) for s in range(0, rounds(mech) + 1)]
+    out.append(("malformed", 0, 0))
     if mech != "PLAIN":
-        out += [("malformed", 1), ("malformed", 2), ("badproof", 1), ("badproof", 2)]
+        out += [("malformed", 1, 0), ("malformed", 2, 0), ("badproof", 1, 0), ("badproof", 2, 0)]
     return out
 
 
@@ -75,28 +95,30 @@ def credentials(cls, creds, rng):
 def tuples():
     out = []
     for mech in MECHS:
-        for hv in (0, 1):
+        for hsadv in HSADVS:
             for creds in CREDS:
-                for (fk, fs) in faults(mech):
+                for (fk, fs, fcode) in faults(mech, hsadv):
                     for entry in ENTRIES:
-                        out.append((mech, hv, creds, fk, fs, entry))
+                        out.append((mech, hsadv, creds, fk, fs, fcode, entry))
     return out
 
 
-def scenario(tup, fconn, cls, seed, k, conc=0):
-    mech, hv, creds, fk, fs, entry = tup
+def scenario(tup, fconn, cls, seed, k, conc=0, aa=0):
+    """aa selects the advertisement of SaslAuthenticate (rotated by the callers so that every tuple meets all three)."""
+    mech, hsadv, creds, fk, fs, fcode, entry = tup
     if cls == "emptypw" and creds != "wrongPassword":
         cls = "ascii"
     rng = random.Random("%d/%s/%s/%d" % (seed, "-".join(map(str, tup)), cls, k))
     user, pw, cuser, cpw = credentials(cls, creds, rng)
-    sid = "%s-hv%d-%s-%s-s%d-%s-f%d-%s-k%d" % (mech, hv, creds, fk, fs, entry, fconn, cls, k)
-    return {"id": sid, "mech": mech, "hvmax": hv, "authv": rng.randint(0, 1), "creds": creds, "fkind": fk, "fstep": fs,
+    authadv = AUTHADVS[aa % len(AUTHADVS)]
+    sid = "%s-hs%s-au%s-%s-%s-s%d-c%s-%s-f%d-%s-k%d" % (mech, hsadv, authadv, creds, fk, fs, str(fcode).replace("-", "n"), entry, fconn, cls, k)
+    return {"id": sid, "mech": mech, "hsadv": hsadv, "authadv": authadv, "creds": creds, "fkind": fk, "fstep": fs, "fcode": fcode,
             "fconn": fconn, "entry": entry, "conc": conc, "class": cls, "user": user, "pass": pw, "cuser": cuser, "cpass": cpw}
 
 
 def fconns(tup):
     """connections of the scenario at which an injected fault can be placed (0 = every connection)."""
-    mech, hv, creds, fk, fs, entry = tup
+    mech, hsadv, creds, fk, fs, fcode, entry = tup
     if fk in ("none", "unsupported") or entry == "dial":
         return [0]
     return [1, 2]
@@ -108,14 +130,17 @@ def scenarios(tier, seed):
     if tier == "quick":
         # every tuple once; the connection that gets the fault and the credential class rotate with the seed.
         # Tuples without an injected fault (where the outcome depends on the credentials only) run with every class.
+        # The SaslAuthenticate advertisement rotates too; the fault-free tuples meet all three of them.
         for i, t in enumerate(tl):
             fc = fconns(t)
             first = CLASS_ORDER[(i * 7 + seed) % len(CLASS_ORDER)]
-            out.append(scenario(t, fc[(i + seed) % len(fc)], first, seed, 0))
+            out.append(scenario(t, fc[(i + seed) % len(fc)], first, seed, 0, aa=i + seed))
             if t[3] == "none":
+                j = 0
                 for cls in CLASS_ORDER:
                     if cls != first and not (cls == "emptypw" and t[2] != "wrongPassword"):
-                        out.append(scenario(t, 0, cls, seed, 0))
+                        j += 1
+                        out.append(scenario(t, 0, cls, seed, 0, aa=i + seed + j))
         ids = set()
         out = [s for s in out if not (s["id"] in ids or ids.add(s["id"]))]
         return out
@@ -125,39 +150,61 @@ def scenarios(tier, seed):
                 if cls == "emptypw" and t[2] != "wrongPassword":
                     continue
                 for k in range(6):
-                    out.append(scenario(t, fc, cls, seed, k))
+                    out.append(scenario(t, fc, cls, seed, k, aa=i + seed + k))
     # concurrent requests through one Transport pool: every request may dial and authenticate its own connection
     for mech in MECHS:
-        for hv in (0, 1):
+        for hsadv in HSADVS:
             for creds in CREDS:
-                for (fk, fs) in faults(mech):
+                for (fk, fs, fcode) in faults(mech, hsadv):
                     for fc in ([0] if fk in ("none", "unsupported") else [2, 3, 4]):
-                        t = (mech, hv, creds, fk, fs, "transportconc")
-                        out.append(scenario(t, fc, CLASS_ORDER[(len(out) + seed) % 4], seed, 0, conc=6))
+                        t = (mech, hsadv, creds, fk, fs, fcode, "transportconc")
+                        out.append(scenario(t, fc, CLASS_ORDER[(len(out) + seed) % 4], seed, 0, conc=6, aa=len(out) + seed))
     return out
 
 
 def tuple_of(s):
-    return (s["mech"], s["hvmax"], s["creds"], s["fkind"], s["fstep"], s["entry"])
+    if "hsadv" not in s:     # replay of a scenario recorded before the advertisement / code dimensions existed
+        return (s["mech"], "v0v1" if s.get("hvmax") else "v0", s["creds"], s["fkind"], s["fstep"], s.get("fcode", 0), s["entry"])
+    return (s["mech"], s["hsadv"], s["creds"], s["fkind"], s["fstep"], s["fcode"], s["entry"])
 
 
 def model_check(ctx):
-    d = ctx.specdir(ENGINE)
-    r = ctx.tlc(ENGINE, "Sasl", "MC_quick.cfg", workers=8, timeout=600)
+    """Sasl.tla with the correct client (all invariants + liveness) and, concurrently, one run per vacuity guard: the
+    defective client must be rejected by the invariant named in GUARDS.  Every run has a private copy of the spec directory."""
+    base = ctx.specdir(ENGINE)
+
+    def private(alias):
+        d = os.path.join(ctx.work, "spec-" + alias)
+        if not os.path.isdir(d):
+            shutil.copytree(base, d)
+        return d
+
+    def main(_):
+        private(ENGINE + "-mc")
+        return ctx.tlc(ENGINE + "-mc", "Sasl", "MC_quick.cfg", workers=6, timeout=600)
+
+    def guard(k):
+        bug, inv = GUARDS[k]
+        alias, cfg = "%s-g%d" % (ENGINE, k), "MC_bug_%s_%s.cfg" % (bug, inv)
+        with open(os.path.join(private(alias), cfg), "w") as f:
+            f.write('SPECIFICATION Spec\nCONSTANTS\n  Conns = {1}\n  Bug = "%s"\n  MaxUse = 2\nINVARIANTS %s\nCHECK_DEADLOCK FALSE\n' % (bug, inv))
+        return ctx.tlc(alias, "Sasl", cfg, workers=2, timeout=300)
+
+    with concurrent.futures.ThreadPoolExecutor(max_workers=6) as ex:
+        fmain = ex.submit(main, None)
+        fguards = [ex.submit(guard, k) for k in range(len(GUARDS))]
+        r = fmain.result()
+        gres = [f.result() for f in fguards]
     if r["violated"] or r["error"] or r["timeout"]:
         raise Inconclusive("model checking of Sasl.tla did not pass: " + r["out"][-2500:])
     m = re.search(r"Finished computing initial states: (\d+) distinct", r["out"])
     cov = {"states": r["distinct"], "transitions": r["generated"], "mc_depth": r["depth"],
            "mc_configs": int(m.group(1)) if m else None, "mc_invariants": ["TypeOK"] + INVS, "mc_liveness": ["C18_DialTerminates"]}
     guards = {}
-    for bug, inv in GUARDS:
-        cfg = "MC_bug_%s.cfg" % bug
-        with open(os.path.join(d, cfg), "w") as f:
-            f.write('SPECIFICATION Spec\nCONSTANTS\n  Conns = {1}\n  Bug = "%s"\n  MaxUse = 2\nINVARIANTS %s\nCHECK_DEADLOCK FALSE\n' % (bug, inv))
-        g = ctx.tlc(ENGINE, "Sasl", cfg, workers=4, timeout=300)
+    for (bug, inv), g in zip(GUARDS, gres):
         if g["violated"] != inv:
-            raise Inconclusive("vacuity guard failed: the defective client %r is not rejected by %s on the model" % (bug, inv))
-        guards[bug] = inv
+            raise Inconclusive("vacuity guard failed: the defective client %r is not rejected by %s on the model: %s" % (bug, inv, g["out"][-800:]))
+        guards.setdefault(bug, []).append(inv)
     cov["vacuity_guards"] = guards
     return cov
 
@@ -336,7 +383,7 @@ def run(ctx):
         by_entry[s["entry"]] = by_entry.get(s["entry"], 0) + 1
 
     def sample(t):
-        return {"id": t[0]["id"], "cfg": {k: t[0][k] for k in ("mech", "hvmax", "creds", "fkind", "fstep", "attr", "entry", "class")},
+        return {"id": t[0]["id"], "cfg": {k: t[0][k] for k in ("mech", "hsadv", "authadv", "creds", "fkind", "fstep", "fcode", "attr", "entry", "class")},
                 "journal": ["%s %s" % (e["ev"], e.get("api") or e.get("what") or e.get("res") or e.get("closed", "")) for e in t[1:] if e["ev"] not in ("write", "open", "use")]}
 
     cov.update({
